@@ -422,15 +422,18 @@ func miscCollections(r *Rng, o *Out) {
 	}
 	// WrapperCollection
 	var sample jsonapi.Resource
+	var sampleType jsonapi.Type // the type the sample was made of: the expected side (not sample.GetType())
 	switch r.IntN(8) {
 	case 0:
 		sample = nil
 		o.stat("wc.sample.nil")
 	case 1:
-		sample = newSoft(types[0])
+		sampleType = types[0]
+		sample = newSoft(sampleType)
 		o.stat("wc.sample.soft")
 	default:
-		sample = newWrapped(types[r.IntN(2)])
+		sampleType = types[r.IntN(2)]
+		sample = newWrapped(sampleType)
 		o.stat("wc.sample.wrapper")
 	}
 	var wc *jsonapi.WrapperCollection
@@ -444,14 +447,14 @@ func miscCollections(r *Rng, o *Out) {
 		return
 	}
 	if p {
-		o.emit(lst("misc", "wc", "new", sxTypeV(sample.GetType())), "panic", "FAIL:WrapCollection panicked on a resource")
+		o.emit(lst("misc", "wc", "new", sxTypeV(sampleType)), "panic", "FAIL:WrapCollection panicked on a resource")
 		return
 	}
 	pv := "ok"
-	if !typeSame(wc.GetType(), sample.GetType()) || wc.Len() != 0 {
+	if !typeSame(wc.GetType(), sampleType) || wc.Len() != 0 {
 		pv = "FAIL:WrapCollection: not an empty collection of the sample's type"
 	}
-	o.emit(lst("misc", "wc", "new", sxTypeV(sample.GetType())), "ok "+sxTypeV(wc.GetType())+" "+itoa(wc.Len()), pv)
+	o.emit(lst("misc", "wc", "new", sxTypeV(sampleType)), "ok "+sxTypeV(wc.GetType())+" "+itoa(wc.Len()), pv)
 	var want []string
 	for h := 1 + r.IntN(14); h > 0; h-- {
 		switch k := r.IntN(10); {
@@ -506,7 +509,7 @@ func miscCollections(r *Rng, o *Out) {
 			o.emit(op, got, pv)
 		default:
 			pv := "ok"
-			if !typeSame(wc.GetType(), sample.GetType()) {
+			if !typeSame(wc.GetType(), sampleType) {
 				pv = "FAIL:WrapperCollection.GetType changed"
 			}
 			o.emit(lst("misc", "wc", "type"), sxTypeV(wc.GetType())+" "+itoa(wc.Len()), pv)
@@ -742,10 +745,16 @@ func miscTypes(r *Rng, o *Out) {
 		pv = "FAIL:Type.Copy returned a nil map"
 	case (c.NewFunc == nil) != (t.NewFunc == nil):
 		pv = "FAIL:Type.Copy dropped or invented NewFunc"
+	case !typeSame(c, copyTypeIndep(t)):
+		// (the copy's content compared by the harness, entry by entry, with the source's - not
+		// by asking Type.Equal, and not only through Fields() of the copy)
+		pv = "FAIL:Type.Copy does not hold the source's name and entries (in maps of its own, never nil)"
 	case e1c != (t.Attrs != nil && t.Rels != nil):
 		pv = "FAIL:t.Equal(t.Copy()) must be true exactly when t has no nil map"
 	case !sort.StringsAreSorted(f) || f == nil:
 		pv = "FAIL:Type.Fields is not sorted / is nil"
+	case strings.Join(f, "\x01") != strings.Join(fieldsIndep(t), "\x01"):
+		pv = "FAIL:Type.Fields is not the sorted list of the names of the attributes and relationships"
 	case strings.Join(f, "\x01") != strings.Join(fc, "\x01") || len(f) != len(t.Attrs)+len(t.Rels):
 		pv = "FAIL:Type.Fields of the copy differ, or Fields has another length than the two maps"
 	}
